@@ -3305,6 +3305,43 @@ impl LayoutExt {
     }
 }
 
+/// Returns what layout reserves for one resolution with the given value flags: bytes in .got,
+/// .plt.got, .rela.plt, .rela.dyn (general), .rela.dyn (relative) and .relr.dyn.
+#[cfg(feature = "verif_hooks")]
+pub(crate) fn verif_allocate_resolution(flag_bits: u16, output_kind: u8, relr: bool) -> [u64; 6] {
+    use crate::args::RelocationModel;
+    use crate::platform::Platform as _;
+    let output_kind = match output_kind {
+        0 => OutputKind::StaticExecutable(RelocationModel::NonRelocatable),
+        1 => OutputKind::StaticExecutable(RelocationModel::Relocatable),
+        2 => OutputKind::DynamicExecutable(RelocationModel::NonRelocatable),
+        3 => OutputKind::DynamicExecutable(RelocationModel::Relocatable),
+        4 => OutputKind::SharedObject,
+        _ => OutputKind::Relocatable,
+    };
+    let mut args = ElfArgs::default();
+    if relr {
+        args.z_pack_relative_relocs = true;
+    }
+    let mut sizes = OutputSectionPartMap::with_size(
+        crate::part_id::NUM_SINGLE_PART_SECTIONS as usize,
+    );
+    Elf::allocate_resolution(
+        ValueFlags::from_bits_retain(flag_bits),
+        &mut sizes,
+        output_kind,
+        &args,
+    );
+    [
+        *sizes.get(part_id::GOT),
+        *sizes.get(part_id::PLT_GOT),
+        *sizes.get(part_id::RELA_PLT),
+        *sizes.get(part_id::RELA_DYN_GENERAL),
+        *sizes.get(part_id::RELA_DYN_RELATIVE),
+        *sizes.get(part_id::RELR_DYN),
+    ]
+}
+
 fn merge_gnu_property_notes<'states, 'data: 'states, A: Arch>(
     states: impl Iterator<Item = &'states ObjectLayoutStateExt<'data>>,
     isa_needed: Option<NonZeroU32>,
